@@ -82,6 +82,11 @@ func (obj *Dynamic) LoadForm() Object {
 			switch ta := a.(type) {
 			case nil:
 				// already nil
+			case List:
+				// An argument is code. A list is a call that has not been
+				// compiled yet and is written as it is, not as the data
+				// (list 'fun ...) that would build it.
+				form[i+1] = ta
 			case LoadFormer:
 				form[i+1] = ta.LoadForm()
 			default:
